@@ -24,8 +24,9 @@ REFUTED = [
     "C07_history_consistent_refuted (pinned tree: a history of valid operations reaches an inconsistent object)",
 ]
 PARTIAL = [
-    "C07_step_consistent_as_is (pinned tree: consistency is preserved by every single operation whose removal touches a "
-    "cell and whose object has no value-less vertex/cell child; missing: exactly the two defects recorded as findings)",
+    "C07_atomic_as_is_partial, C07_step_consistent_as_is, C07_history_consistent_as_is_partial (pinned tree: atomicity and "
+    "consistency hold for every operation whose removal touches a cell and whose object has no value-less vertex/cell "
+    "child; missing: exactly the two defects recorded as findings)",
 ]
 TRUSTED = [
     "Coq 8.16.1 kernel + vm_compute (correspondence evaluation); no axioms (Print Assumptions: closed)",
